@@ -185,6 +185,8 @@ func (c *ltComp) Run(args []string) string {
 		return n
 	}
 	switch args[0] {
+	case "race":
+		return ltRace()
 	case "new":
 		if len(args) != 3 {
 			return "bad-op"
